@@ -32,9 +32,11 @@ func init() {
 			{Name: "random", N: func(c *Ctx) int { return tierN(c, 30000, 10000000) }, Run: c01Random},
 			{Name: "grid", N: c01GridN, Run: c01Grid, Exhaustive: true},
 			{Name: "joins", N: func(c *Ctx) int { return joinN() }, Run: joinModel("C01", false), Exhaustive: true},
+			{Name: "wide-joins", N: func(c *Ctx) int { return wideJoinN() }, Run: wideJoinRun("C01"), Exhaustive: true},
 			{Name: "hash-hostile-names", N: func(c *Ctx) int { return hashNamesN() }, Run: hashNamesRun("C01"), Exhaustive: true},
 			{Name: "deep-shared", N: deepSharedN, Run: deepSharedRun("C01"), Exhaustive: true},
 			{Name: "heavy", N: heavyN, Run: heavyRun("C01"), Exhaustive: true},
+			{Name: "many-elements", N: func(c *Ctx) int { return len(manyForms) }, Run: manyRun("C01"), Exhaustive: true},
 			{Name: "keyword-identifiers", N: func(c *Ctx) int { return len(c01KeywordIdents) }, Run: c01KeywordIdentifiers, Exhaustive: true},
 			{Name: "number-boundaries", N: func(c *Ctx) int { return len(c01NumB) }, Run: c01NumberBoundaries, Exhaustive: true},
 			{Name: "index-boundaries", N: func(c *Ctx) int { return len(c01IdxLens) * len(c01IdxLits) }, Run: c01IndexBoundaries, Exhaustive: true},
